@@ -44,6 +44,18 @@ CHECKS = {
  "C20": dict(technique="numpy longdouble log-sum-exp oracle + per-cell law monitors (finite, bounds, shift equivariance, small-scale limit, axis==segment layout) on the real aggregation functions, jax_debug_nans on",
              text="Held on K random arrays/segmentations/scales (1e-8..1e8, magnitudes to 1e6), eager and jit, x64 and f32.",
              ref="5/C20", note="scale range bounded so that value/scale is representable"),
+ "C05": dict(technique="reference-layout monitor: shapes and every entry of the solved arrays vs the layout derived from the statement, on template models with pairwise different axis lengths, asymmetric and period-dependent functions, permuted declaration orders; in-situ check of every space-info's axis_names",
+             text="Held on K models x declaration orders (all 24 orders of a fixed 4-state model in the thorough tier); list length, exact shapes, entries 1e-9.",
+             ref="5/C05", note="trusted: reference values identify the state of an entry; layout derived from the statement's wording"),
+ "C07": dict(technique="exact template oracle + sensitivity monitor (one changed leaf -> same generated function re-run must equal the reference for the new parameters) on models with colliding parameter names; metamorphic permutation of stochastic dependency order",
+             text="Held on K generated models: templates of solve and simulate targets equal the expected template; >= 400 single-leaf changes routed correctly; dependency permutations leave the solution unchanged.",
+             ref="5/C07", note="trusted: reference routes by function name by construction"),
+ "C10": dict(technique="metamorphic monitor: two differently written specifications of the same model solved by the real code and compared state by state through the layout map; five rewriting kinds",
+             text="Held on K base models x {permute, rename, always-true constraint, always-true filter, filter-as-constraint}; base additionally compared with the reference.",
+             ref="5/C10", note="trusted: layout map; rewritings are equivalence-preserving by construction"),
+ "C11": dict(technique="metamorphic law monitors between pairs of real solve() runs (affine utility, beta=0, horizon independence, one-hot == deterministic) on small generated and on large consumption-saving models",
+             text="Held on K pairs incl. large models (thorough: 300 x 1000 x 8) for which no reference enumeration is feasible.",
+             ref="5/C11", note="laws compared between two runs of the real code, 1e-9 relative"),
 }
 DEFAULT_NA = "check not built yet in this revision of /verif (planned in DESIGN.md section 5)"
 
